@@ -353,7 +353,7 @@ def engine_readbuf(tier, seed):
                                   model='ReadBufEdit', cfg_name='readbuf_c2d3', timeout=3000))
     res = merge_results('readbuf', parts)
     for d in res['divergences']:
-        d['tag'] = 'C15'
+        d['tag'] = d.get('tag') or 'C15'
     return res
 
 
@@ -612,6 +612,83 @@ def engine_submitmt(tier, seed):
                                                    'field': 'recorded executions are not behaviours of SubmitMT (TLC trace validation rejected %s)' % nd,
                                                    'expected': 'accepted', 'observed': 'rejected', 'trace_file': nd})
                 res['samples'].append({'model': 'SubmitMT', 'recorded_execution': json.loads(open(trace_path).readline())})
+    res['wall_s'] = round(time.time() - t0, 1)
+    res['divergences_total'] = len(res['divergences'])
+    if not res['errors']:
+        cache_put(key, res)
+    return res
+
+
+CQSTEPS_CFG = """SPECIFICATION Spec
+CONSTANTS
+    N = %(n)d
+    W = %(w)d
+    Start = %(start)d
+    Script <- %(script)s
+    MaxPolls = %(polls)d
+    Dev = %(dev)s
+INVARIANTS
+    InOrderOnce
+    NeverReadsUnpublished
+    ReservedIgnored
+    AllProcessed
+    PollMakesProgress
+CHECK_DEADLOCK FALSE
+"""
+
+
+def engine_cq(tier, seed):
+    """C05: Completions::poll at the granularity of its shared-memory accesses
+    (CqSteps.tla, every wrap position of a small counter), and the real
+    Ring::poll against a concurrently publishing, slot-reusing kernel under
+    every schedule with a bounded number of preemptions."""
+    key = 'cq-%s-%s-%d' % (tier, tree_hash(), seed)
+    cached = cache_get(key)
+    if cached:
+        cached['cached'] = True
+        return cached
+    t0 = time.time()
+    res = {'engine': 'cq', 'tier': tier, 'tlc': [], 'replays': [], 'divergences': [], 'errors': [], 'samples': [],
+           'cached': False}
+    bindir = build_harness()
+    binary = os.path.join(bindir, 'sched_cq')
+    models = [dict(n=2, w=8, start=0, script='Script6', polls=4), dict(n=2, w=8, start=7, script='Script6', polls=4),
+              dict(n=4, w=8, start=6, script='Script6', polls=3), dict(n=1, w=4, start=3, script='Script4', polls=5)]
+    if tier == 'thorough':
+        models += [dict(n=2, w=8, start=s, script='Script6', polls=6) for s in (1, 2, 3, 4, 5, 6)]
+        models += [dict(n=4, w=16, start=13, script='Script6', polls=5)]
+    for i, m in enumerate(models):
+        cfg = write_cfg('cqsteps_%d' % i, CQSTEPS_CFG % dict(m, dev='{}'))
+        r = run_tlc('cqsteps_%d' % i, 'MC_CqSteps', cfg, timeout=1800)
+        r['purpose'] = 'contract: %s' % m
+        res['tlc'].append(r)
+        if not r['ok']:
+            res['errors'].append('TLC %s: %s' % (r['name'], r['violated'] or r['error']))
+    for dev in ('StoreHeadEarly', 'NonModular'):
+        cfg = write_cfg('cqsteps_dev_%s' % dev, CQSTEPS_CFG % dict(models[1], dev='{"%s"}' % dev))
+        r = run_tlc('cqsteps_dev_%s' % dev, 'MC_CqSteps', cfg, timeout=600)
+        r['purpose'] = 'sanity: deviation %s must violate an invariant' % dev
+        if not r['violated']:
+            res['errors'].append('CqSteps: deviation %s no longer violates any invariant (vacuous model?)' % dev)
+        r['ok'] = True
+        res['tlc'].append(r)
+    runs = [dict(cqn=2, cq_init=0, pre=2), dict(cqn=2, cq_init=0xFFFFFFFF, pre=2), dict(cqn=4, cq_init=0xFFFFFFFD, pre=2),
+            dict(cqn=4, cq_init=0, pre=2), dict(cqn=8, cq_init=0xFFFFFFFA, pre=2)]
+    if tier == 'thorough':
+        runs += [dict(cqn=2, cq_init=0xFFFFFFFE, pre=3), dict(cqn=4, cq_init=0xFFFFFFFE, pre=3),
+                 dict(cqn=8, cq_init=0xFFFFFFFC, pre=3), dict(cqn=2, cq_init=0x7FFFFFFF, pre=3)]
+    for i, rn in enumerate(runs):
+        outdir = os.path.join(BUILD, 'replay', 'cq_%d' % i)
+        args = ['--cqn', str(rn['cqn']), '--cq-init', str(rn['cq_init']), '--preemptions', str(rn['pre']),
+                '--max-exec', str(100000 if tier == 'quick' else 2000000)]
+        rc, recs, summary, err = sched_run(binary, args, outdir, 'C05', 'CqSteps')
+        if summary is None:
+            res['errors'].append('sched_cq run %d died (rc %s): %s' % (i, rc, err))
+            continue
+        res['divergences'] += recs
+        res['replays'].append({'model': 'CqSteps/real Ring::poll under the baton scheduler', 'variant': json.dumps(rn),
+                               'paths': summary['paths'], 'steps': summary['steps'], 'diverged_paths': summary['diverged_paths'],
+                               'schedule_space_exhausted': summary.get('complete'), 'crashes': 0})
     res['wall_s'] = round(time.time() - t0, 1)
     res['divergences_total'] = len(res['divergences'])
     if not res['errors']:
